@@ -105,8 +105,7 @@ def check(ctx):
     need = {('PartHandler', '_pass_part_downstream'), ('PartProcessor', 'restore_functionality'), ('Sink', '_finish_cycle'),
             ('PartHandler', 'prop:block_input'), ('Buffer', '_pass_part_downstream')}
     missing = {k for k in need if P.has_cls(k[0]) and k not in o.nontrivial}
-    if missing:
-        raise AnalysisError(f'C03.1: the antecedent (not accepting -> accepting) is never witnessed at {sorted(missing)}; the rule would pass vacuously')
+    o.require(not missing, f'the antecedent (not accepting -> accepting) is never witnessed at {sorted(missing)}; the rule would pass vacuously')
 
     # ---- C03.2 retry protocol ------------------------------------------------------------------
     o = Ob('C03.2', 'K5', 'retry invariant J, inductive over all entry points: (part ready to leave and device operational) => '
@@ -546,8 +545,7 @@ def resource_wakeups(ctx, o6, o7):
                             file=RM.mod.path, line=dv.entry_fn(P, RM, e).lineno, path=res.path_lines(g.exit, st))
     for need in ('add_resources', '_release_resources', 'reserve_resources_with_callback'):
         o6.count()
-        if need not in mutators:
-            raise AnalysisError(f'C03.6: {need} is not seen to change a pool or the waiting list; the rule would pass vacuously')
+        o6.require(need in mutators, f'{need} is not seen to change a pool or the waiting list; the rule would pass vacuously')
     o6.sample({'mutating_entry_points': sorted(mutators)})
     # the check event must not be pausable/cancellable with a device: asset id is not a device id
     for s in inv.method_calls(P, 'schedule_event'):
